@@ -153,6 +153,7 @@ func runXPropWith(t *testing.T, xp xProp, post func(rt *rapid.T, k *xCase)) {
 		return
 	}
 	avoidAll := pbt.AvoidTags(xp.id, "C11", "C12", "C07", "C01")
+	c.SetRecheck(func(k any) []pbt.Violation { return xp.eval(k.(xCase)) })
 	c.ReplayKnown(t, func(raw json.RawMessage) []pbt.Violation {
 		var k xCase
 		if err := json.Unmarshal(raw, &k); err != nil || k.Prog == nil {
